@@ -221,8 +221,16 @@ func (r *real) checkIter(idx int, s *Step, it store.KVIterator, info IterSt, exp
 		bad = !eqInts(got.K, exp.K) || !eqInts(got.V, exp.V) || problem != ""
 	}
 	if bad {
-		return &mismatch{Class: iterClass(info.Kind, action, info.Lo, info.Hi, got, r.emb), StepIdx: idx, Action: s.Name,
-			Expected: exp, Got: got, Detail: fmt.Sprintf("iterator %s lo=%v hi=%v %s", info.Kind, info.Lo, info.Hi, problem)}
+		cl := iterClass(info.Kind, action, info.Lo, info.Hi, got, r.emb)
+		detail := fmt.Sprintf("iterator %s lo=%v hi=%v %s", info.Kind, info.Lo, info.Hi, problem)
+		// the iterator passed over the key the model expects: does a point read on the same reader find it?
+		if rd, ok := r.readers[info.Rd]; ok && exp.Valid && (!got.Valid || !eqInts(got.K, exp.K)) {
+			if v, err := rd.Get(r.emb.key(exp.K)); err == nil && v != nil && eqInts(intsOf(v), exp.V) {
+				cl = "scan-disagrees-with-get"
+				detail += " (Get on the same reader returns the key the iterator skipped)"
+			}
+		}
+		return &mismatch{Class: cl, StepIdx: idx, Action: s.Name, Expected: exp, Got: got, Detail: detail}
 	}
 	return nil
 }
@@ -313,14 +321,27 @@ func (r *real) observeAll(idx int, s *Step, multiget bool) (first *mismatch, ext
 	}
 	got, problem := r.scan(fresh)
 	r.evals++
+	probes := probeKeys(s)
 	if problem != "" || !eqScan(got, s.KVS) {
 		cl := "store-contents"
 		if s.Name == "ExecuteBatch" {
 			cl = batchClass(s.Ops)
 		}
-		add(&mismatch{Class: cl, StepIdx: idx, Action: s.Name, Expected: s.KVS, Got: got, Detail: "full scan of a new reader " + problem})
+		// do the point reads of the same reader agree with the model? then the iteration is at
+		// fault, not the batch (signature: scan-disagrees-with-get)
+		getsOK := true
+		for _, k := range probes {
+			if r.checkGet(idx, s, fresh, k, lookup(s.KVS, k), "new reader") != nil {
+				getsOK = false
+			}
+		}
+		detail := "full scan of a new reader " + problem
+		if getsOK && problem == "" {
+			cl = "scan-disagrees-with-get"
+			detail = "full scan of a new reader misses/adds keys although every Get of the same reader agrees with the model"
+		}
+		add(&mismatch{Class: cl, StepIdx: idx, Action: s.Name, Expected: s.KVS, Got: got, Detail: detail})
 	}
-	probes := probeKeys(s)
 	for _, k := range probes {
 		add(r.checkGet(idx, s, fresh, k, lookup(s.KVS, k), "new reader"))
 	}
@@ -452,7 +473,7 @@ func (r *real) apply(idx int, s *Step) *mismatch {
 			return &mismatch{Class: "iter-open-nil", StepIdx: idx, Action: s.Name}
 		}
 		r.iters[s.I] = it
-		r.itInfo[s.I] = IterSt{Kind: s.Kind, Lo: s.Lo, Hi: s.Hi}
+		r.itInfo[s.I] = IterSt{Kind: s.Kind, Lo: s.Lo, Hi: s.Hi, Rd: s.R}
 		return r.checkIter(idx, s, it, r.itInfo[s.I], *s.RetIter, "open")
 	case "Seek":
 		it := r.iters[s.I]
